@@ -30,7 +30,10 @@ RULE = ("Options = every entry of behave.configuration.OPTIONS that has a positi
         "swap, thorough also triples of the core; the full product 'every subset in the file x every subset on the "
         "command line' over 5 (thorough 7) options; all options at once; two config files (same/different directory, "
         "disjoint/conflicting options, userdata); (3) relative/absolute paths and outfiles in config files x 4 "
-        "cwd/HOME layouts x file format/outfiles coupling sizes x command-line formats/outfiles; (4) -D strings: name x "
+        "cwd/HOME layouts x file format/outfiles coupling (#formats 0..3 x #outfiles 0..3, all combinations) x every file "
+        "name x command-line formats/outfiles, the same grid through read_configuration(path) for a file in a third "
+        "directory (relative and absolute path); every outfile of a config file, named or derived '<format>.output', "
+        "must lie in that file's directory and Configuration.outputs[i] must pair with formatter i; (4) -D strings: name x "
         "{bare, '=', ' = '} x value alphabet x whole-string quoting x outer padding x 4 spellings of -D, userdata in "
         "file (ini/toml, cwd/HOME) x subsets of -D overrides; (5) UserData getters x values x default given/not, direct "
         "and through Configuration; (6) ordered pairs of build specs: Configuration A then B in one process without "
@@ -536,11 +539,12 @@ def coupled_outfiles(dest, cdir, cwd, v, f):
     n, m = len(fmt), len(v)
     if m > n:
         return [path_key(cdir, v), path_key(cdir, v[:n])]       # surplus outfiles: not specified
+    # documented (features/runner.multiple_formatters.feature): "the outfiles list is extended by using an outfile
+    # ${format}.output for each missing outfile"; the statement: output files of a configuration file are relative
+    # to THAT file - named or derived alike (a derived name left relative to the cwd splits one file's outputs
+    # over two directories).
     extra = ["%s.output" % name for name in fmt[m:]]
-    alts = [path_key(cdir, v) + path_key(cdir, extra)]
-    if extra and cdir != cwd:
-        alts.append(path_key(cdir, v) + path_key(cwd, extra))
-    return alts
+    return [path_key(cdir, v) + path_key(cdir, extra)]
 
 
 def active_rewrites(exp):
@@ -589,7 +593,13 @@ def compare(spec, obs, v, tag):
         desc = {"subcheck": "options", "clause": cl, "kind": opt["kind"],
                 "filekind": fk if clause != "cmd>default" else "-"}
         if cl == "relative-to-config-file":
+            if dest == "outfiles":      # a file that only names formats contributes (derived) outfiles too
+                where = sorted(set(f["where"] for f in spec.get("files", ())
+                                   if set(dict(f.get("opts", ()))) & {"outfiles", "format"})) or ["-"]
             desc["where"] = "+".join(where)
+            desc["filekind"] = fk
+            if dest == "outfiles":
+                desc["outfile"] = misplaced_outfile_class(spec, got, acc)
         v.append((desc,
                   "[%s] option %s: expected %s, observed %r  [files: %s; args: %r]"
                   % (tag, dest, " or ".join(repr(a) for a in acc), got, describe_files(spec), list(obs["args"]))))
@@ -603,6 +613,7 @@ def compare(spec, obs, v, tag):
     if "outfiles" in exp and "outfiles" not in skip:
         derived.append(("config.outputs names", path_key(cwd, [x for x in obs["outputs"] if x]),
                         [a or () for a in exp["outfiles"][0]]))
+    n += check_output_pairing(spec, obs, exp, skip, cwd, v, tag)
     for what, got, acc in derived:
         n += 1
         if not any(a == got for a in acc):
@@ -610,6 +621,56 @@ def compare(spec, obs, v, tag):
                       "[%s] %s: expected %s, observed %r  [files: %s; args: %r]"
                       % (tag, what, " or ".join(repr(a) for a in acc), got, describe_files(spec), list(obs["args"]))))
     return nontrivial(spec, exp), n
+
+
+def file_format_outfiles(spec):
+    """(config dir token, formats, outfiles) of the single config file that assigns `format`, else None"""
+    layout = LAYOUTS[spec.get("layout", "sibling")]
+    hits = []
+    for f in spec.get("files", ()):
+        o = dict(f.get("opts", ()))
+        if o.get("format"):
+            cdir = os.path.normpath(os.path.join(S_TOKEN, layout[0] if f["where"] == "cwd" else layout[1]))
+            hits.append((cdir, tuple(o["format"]), tuple(o.get("outfiles") or ())))
+    return hits[0] if len(hits) == 1 else None
+
+
+def misplaced_outfile_class(spec, got, acc):
+    ffo = file_format_outfiles(spec)
+    m = len(ffo[2]) if ffo else None
+    for a in acc:
+        if isinstance(a, tuple) and len(a) == len(got):
+            bad = [i for i, (x, y) in enumerate(zip(a, got)) if x != y]
+            if bad and m is not None:
+                return "derived" if all(i >= m for i in bad) and bad[0] < len(ffo[1]) else "named"
+    return "named"
+
+
+def check_output_pairing(spec, obs, exp, skip, cwd, v, tag):
+    """Configuration.outputs[i] is the stream of formatter i: the i-th formatter of the config file writes to the
+    i-th outfile named in that file, else to '<formatter>.output', both in the config file's directory"""
+    ffo = file_format_outfiles(spec)
+    if ffo is None or "format" in skip or "outfiles" in skip:
+        return 0
+    cdir, fmts, outs = ffo
+    got_fmt = obs["opts"].get("format")
+    if not isinstance(got_fmt, tuple) or got_fmt[:len(fmts)] != fmts:
+        return 0                         # the format list itself is wrong: reported by the option comparison
+    names = list(obs["outputs"])
+    n = 0
+    for i, fmt in enumerate(fmts):
+        want = abs_in(cdir, outs[i]) if i < len(outs) else abs_in(cdir, "%s.output" % fmt)
+        got = abs_in(cwd, names[i]) if i < len(names) and names[i] else None
+        n += 1
+        if got != want:
+            v.append(({"subcheck": "options", "clause": "outputs-pairing", "filekind": file_kinds(spec),
+                       "outfile": "named" if i < len(outs) else "derived",
+                       "where": "+".join(sorted(set(f["where"] for f in spec.get("files", ())))),
+                       "misplaced": "directory" if got and os.path.basename(got) == os.path.basename(want) else "other"},
+                      "[%s] Configuration.outputs[%d] (formatter %r): expected %r, observed %r  [files: %s; args: %r]"
+                      % (tag, i, fmt, want, got, describe_files(spec), list(obs["args"]))))
+            break
+    return n
 
 
 def nontrivial(spec, exp):
@@ -1135,16 +1196,22 @@ def gen_paths(quick):
                 # outfiles alone (no format in the file)
                 for ol in [(o,) for o in OUT_ALPHABET] + [OUT_ALPHABET[:2], OUT_ALPHABET[::-1]]:
                     yield {"t": "paths", "layout": layout, "files": (fspec(where, name, [("outfiles", ol)]),)}
-                # format/outfiles coupling: n formats x m outfiles x command-line formats/outfiles
-                fmts = ("plain", "json", "progress")
-                for n in (1, 2, 3):
+    # format/outfiles coupling: #formats 0..3 x #outfiles 0..3 (every combination, more formats than outfiles and
+    # the reverse) x command-line formats/outfiles x every file name x {cwd, HOME} x every layout
+    fmts = ("plain", "json", "progress")
+    for layout in layouts:
+        for where in ("cwd", "home"):
+            for name in FILE_NAMES:
+                for n in (0, 1, 2, 3):
                     for m in (0, 1, 2, 3):
-                        if quick and m > n + 1:
+                        if n == 0 and m == 0:
                             continue
-                        fo = [("format", fmts[:n])]
+                        fo = []
+                        if n:
+                            fo.append(("format", fmts[:n]))
                         if m:
                             fo.append(("outfiles", OUT_ALPHABET[:m]))
-                        for order in ((0, 1), (1, 0)) if m else ((0,),):
+                        for order in ((0, 1), (1, 0)) if len(fo) == 2 else ((0,),):
                             fopts = [fo[i] for i in order]
                             for cf, co in ((0, 0), (1, 0), (1, 1), (2, 1)):
                                 if order != (0, 1) and order != (0,) and (cf, co) != (1, 1):
@@ -1158,6 +1225,87 @@ def gen_paths(quick):
                                 if cmd:
                                     spec["cmd"] = tuple(cmd)
                                 yield spec
+
+
+READCONF_DIRS = ("conf", "../other", "sub/deep/er", "./dot", "abs")
+
+
+def gen_readconf():
+    """read_configuration(path) on a config file in ANOTHER directory than cwd and HOME (path with a directory
+    part, relative or absolute) x file names x #formats 0..3 x #outfiles 0..3 x key order x with/without paths"""
+    for where in READCONF_DIRS:
+        for name in FILE_NAMES:
+            for n in (0, 1, 2, 3):
+                for m in (0, 1, 2, 3):
+                    for order in ((0, 1), (1, 0)) if (n and m) else ((0, 1),):
+                        for with_paths in (False, True):
+                            if n == 0 and m == 0 and not with_paths:
+                                continue
+                            yield (where, name, n, m, order, with_paths)
+
+
+def run_readconf(case):
+    where, name, n, m, order, with_paths = case
+    from behave.configuration import read_configuration
+    reset_state()
+    fmts = ("plain", "json", "progress")[:n]
+    outs = OUT_ALPHABET[:m]
+    paths = ("features/a", "../up/b.feature", "/abs/c") if with_paths else ()
+    fo = [("format", fmts), ("outfiles", outs)]
+    fopts = [fo[i] for i in order if fo[i][1]]
+    if paths:
+        fopts.insert(1 if len(fopts) > 1 else 0, ("paths", paths))
+    root = tempfile.mkdtemp(prefix="c20-%s-" % RUN_TAG, dir="/dev/shm")
+    cwd = os.path.join(root, "t", "work")
+    confdir = os.path.join(root, "t", "elsewhere") if where == "abs" else os.path.normpath(os.path.join(cwd, where))
+    arg = os.path.join(confdir, name) if where == "abs" else os.path.join(where, name)
+    cwd_tok = os.path.join(S_TOKEN, "t", "work")
+    conf_tok = confdir.replace(root, S_TOKEN)
+    old_out = sys.stdout
+    v, got = [], None
+    try:
+        os.makedirs(cwd)
+        os.makedirs(confdir, exist_ok=True)
+        with open(os.path.join(confdir, name), "w") as fh:
+            fh.write(render_file(fspec("cwd", name, fopts)))
+        os.chdir(cwd)
+        sys.stdout = io.StringIO()
+        try:
+            data = read_configuration(arg)
+            got = {k: norm_value(data.get(k), root) for k in ("format", "outfiles", "paths")}
+        except Exception as e:
+            got = ("EXC", type(e).__name__, norm_value(str(e), root))
+    finally:
+        sys.stdout = old_out
+        os.chdir(_SNAP["cwd"])
+        shutil.rmtree(root, ignore_errors=True)
+    fk = "toml" if name == TOML_NAME else "ini"
+    shown = "read_configuration(%r) [cwd=<S>/t/work, file in %s: %s]" % (arg.replace(root, S_TOKEN), conf_tok, fopts)
+    if isinstance(got, tuple):
+        v.append(({"subcheck": "options", "clause": "build-raises", "exc": got[1], "trigger": "read_configuration:" + fk},
+                  "%s raised %s: %s" % (shown, got[1], got[2])))
+        return {"v": v, "dg": got, "out": ("readconf", "exc")}
+    if n < m and n:
+        want_out = [path_key(conf_tok, outs), path_key(conf_tok, outs[:n])]     # surplus outfiles: not specified
+    else:
+        want_out = [path_key(conf_tok, outs) + path_key(conf_tok, ["%s.output" % f for f in fmts[m:]])]
+    checks = [("format", tuple(got["format"] or ()), [tuple(fmts)], None),
+              ("outfiles", path_key(cwd_tok, got["outfiles"] or ()), want_out, m),
+              ("paths", path_key(cwd_tok, got["paths"] or ()), [path_key(conf_tok, paths)], None)]
+    for key, g, acc, named in checks:
+        if g in acc:
+            continue
+        desc = {"subcheck": "options", "clause": "file>default", "kind": "list", "filekind": fk}
+        same_names = [a for a in acc if [os.path.basename(x) for x in a] == [os.path.basename(x) for x in g]]
+        if same_names:
+            desc.update(clause="relative-to-config-file", where="other-dir")
+            if key == "outfiles":
+                bad = [i for i, (x, y) in enumerate(zip(same_names[0], g)) if x != y]
+                desc["outfile"] = "derived" if all(i >= named for i in bad) else "named"
+        v.append((desc, "%s: %s expected %s, observed %r" % (shown, key, " or ".join(repr(a) for a in acc), g)))
+    reset_state()
+    return {"v": v, "nt": ("readconf", case) if (n or m or with_paths) else None,
+            "out": ("readconf", n, m, where == "abs", digest(sorted(got.items()))), "dg": sorted(got.items())}
 
 
 DEFINE_NAMES = ("foo", "ns.key")
@@ -1280,6 +1428,7 @@ def run(ctx):
     ctx.sweep(run_build, gen_all_at_once(), chunk=4, name="all options at once")
     ctx.sweep(run_build, gen_multifile(quick), chunk=32, name="two config files")
     ctx.sweep(run_build, gen_paths(quick), chunk=32, name="paths/outfiles resolution, format coupling")
+    ctx.sweep(run_readconf, gen_readconf(), chunk=32, name="read_configuration(path) in another directory")
     ctx.sweep(run_define, gen_defines(), chunk=8, name="-D grammar")
     ctx.sweep(run_build, gen_userdata_override(quick), chunk=32, name="userdata file vs -D")
     getters = [(g, val, dg, via) for g in ("getint", "getfloat", "getbool", "getas_int") for val in GETTER_VALUES
